@@ -5,6 +5,7 @@ package scen
 import (
 	"context"
 	"fmt"
+	"reflect"
 	"time"
 
 	"github.com/gopcua/opcua"
@@ -26,17 +27,26 @@ type c23Client struct {
 	LifetimeMs, SessionTimeoutMs        uint32
 	AppName                             string
 	Set                                 []string `json:"set"`
+	// Dialer: "" (none), "nil-ack": opcua.Dialer(&uacp.Dialer{}) whose ClientACK is left
+	// unset ("defaults to DefaultClientACK"), "own-ack": a dialer with its own ClientACK
+	Dialer string `json:"dialer_option,omitempty"`
 }
 
 type c23Run struct {
-	Clients []c23Client `json:"clients"`
-	Order   []int       `json:"connect_order"`
+	// what the scripted server acknowledges (deliberately not the client defaults)
+	AckRecv, AckSend, AckMaxMsg, AckMaxChunks uint32
+	Clients                                   []c23Client `json:"clients"`
+	Order                                     []int       `json:"connect_order"`
 }
 
 func (r *c23Run) Sample() any { return r }
 
 func (r *c23Run) Setup(s *sim.Sim) {
 	p := s.Plan
+	r.AckRecv = sim.Pick(p, uint32(65535), 8192, 16384, 32768)
+	r.AckSend = sim.Pick(p, uint32(65535), 8192, 16384, 32768)
+	r.AckMaxMsg = sim.Pick(p, uint32(0), 123456, 1<<22)
+	r.AckMaxChunks = sim.Pick(p, uint32(0), 7, 512)
 	n := 2 + p.Intn(7)
 	for i := 0; i < n; i++ {
 		var c c23Client
@@ -54,6 +64,17 @@ func (r *c23Run) Setup(s *sim.Sim) {
 		c.LifetimeMs = sim.Pick(p, uint32(10000), 60000, 600000)
 		c.SessionTimeoutMs = sim.Pick(p, uint32(30000), 120000)
 		c.AppName = fmt.Sprintf("app-%d", i)
+		if p.Intn(4) == 0 {
+			c.Dialer = sim.Pick(p, "nil-ack", "own-ack")
+			// the Dialer option replaces the dialer the buffer options write to: keep them apart
+			var keep []string
+			for _, k := range c.Set {
+				if k != "recv" && k != "send" && k != "maxmsg" && k != "maxchunks" {
+					keep = append(keep, k)
+				}
+			}
+			c.Set = keep
+		}
 		r.Clients = append(r.Clients, c)
 	}
 	r.Order = make([]int, n)
@@ -85,6 +106,8 @@ func (r *c23Run) Main(s *sim.Sim) {
 		return
 	}
 	defer srv.Close()
+	srv.Ack.RecvBuf, srv.Ack.SendBuf, srv.Ack.MaxMsg, srv.Ack.MaxChunks = r.AckRecv, r.AckSend, r.AckMaxMsg, r.AckMaxChunks
+	defClientCfg, defSessionCfg, defDialer := *opcua.DefaultClientConfig(), *opcua.DefaultSessionConfig(), opcua.DefaultDialer()
 	type seen struct {
 		lifetime uint32
 		timeout  float64
@@ -136,6 +159,14 @@ func (r *c23Run) Main(s *sim.Sim) {
 				opts = append(opts, opcua.ApplicationName(cc.AppName))
 			}
 		}
+		switch cc.Dialer {
+		case "nil-ack":
+			custom = true
+			opts = append(opts, opcua.Dialer(&uacp.Dialer{}))
+		case "own-ack":
+			custom = true
+			opts = append(opts, opcua.Dialer(&uacp.Dialer{ClientACK: &uacp.Acknowledge{ReceiveBufSize: cc.RecvBuf, SendBufSize: cc.SendBuf, MaxMessageSize: cc.MaxMsg, MaxChunkCount: cc.MaxChunks}}))
+		}
 		c, err := opcua.NewClient(srvURL, opts...)
 		if err != nil {
 			s.Fail("HARNESS", "setup", "newclient", "%v", err)
@@ -165,6 +196,9 @@ func (r *c23Run) Main(s *sim.Sim) {
 		h := rc.Hello
 		want := func(opt string, custom, def uint32) uint32 {
 			if has(cc.Set, opt) {
+				return custom
+			}
+			if cc.Dialer == "own-ack" && (opt == "recv" || opt == "send" || opt == "maxmsg" || opt == "maxchunks") {
 				return custom
 			}
 			return def
@@ -204,6 +238,18 @@ func (r *c23Run) Main(s *sim.Sim) {
 	}
 	if *uacp.DefaultClientACK != defAck {
 		s.Fail("C23", "defaults-modified", "uacp.DefaultClientACK", "package default changed from %+v to %+v", defAck, *uacp.DefaultClientACK)
+		return
+	}
+	if got := *opcua.DefaultClientConfig(); !reflect.DeepEqual(got, defClientCfg) {
+		s.Fail("C23", "defaults-modified", "opcua.DefaultClientConfig", "DefaultClientConfig changed from %+v to %+v", defClientCfg, got)
+		return
+	}
+	if got := *opcua.DefaultSessionConfig(); !reflect.DeepEqual(got, defSessionCfg) {
+		s.Fail("C23", "defaults-modified", "opcua.DefaultSessionConfig", "DefaultSessionConfig changed from %+v to %+v", defSessionCfg, got)
+		return
+	}
+	if got := opcua.DefaultDialer(); !reflect.DeepEqual(got.ClientACK, defDialer.ClientACK) {
+		s.Fail("C23", "defaults-modified", "opcua.DefaultDialer", "DefaultDialer().ClientACK changed from %+v to %+v", defDialer.ClientACK, got.ClientACK)
 		return
 	}
 	// a client created now still gets the defaults
